@@ -1188,4 +1188,162 @@ theorem scan_lineComment (r : Cursor) (body k : List Char)
     (fun x t hxt => by simp at hxt; simp [← hxt.1])
   exact (Cursor.chars_cons hk).2.1
 
+/-! ### Helpers for the statements of Props/C16 -/
+
+theorem tailOK_of_wsRuns {w1 w2 post : List Char} (hw1 : WsRun w1) (hw2 : WsRun w2) :
+    TailOK (w1 ++ post) (w2 ++ post) := by
+  obtain ⟨hn1, ha1⟩ := hw1
+  obtain ⟨hn2, ha2⟩ := hw2
+  cases w1 with
+  | nil => exact absurd rfl hn1
+  | cons c1 x1 =>
+    cases w2 with
+    | nil => exact absurd rfl hn2
+    | cons c2 x2 =>
+      exact Or.inr ⟨c1, x1 ++ post, c2, x2 ++ post, rfl, rfl, ha1 c1 (by simp), ha2 c2 (by simp)⟩
+
+/-- From a cursor standing at a whitespace run the significant tokens are those of what follows
+the run: the run itself (and nothing else) is skipped. -/
+theorem sigTokens_wsRun (g1 g2 : Cursor) (w1 w2 post : List Char) (h1 : g1.chars = w1 ++ post)
+    (h2 : g2.chars = w2 ++ post) (hw1 : WsRun w1) (hw2 : WsRun w2) (hpost : NotWsHead post) :
+    sigTokens g1 = sigTokens g2 := by
+  obtain ⟨t1, c1⟩ := scan_wsRun g1 w1 post h1 hw1 hpost
+  obtain ⟨t2, c2⟩ := scan_wsRun g2 w2 post h2 hw2 hpost
+  rw [sigTokens_step g1, sigTokens_step g2, t1, t2]
+  simp only [reduceCtorEq, if_false, true_or, if_true]
+  exact sigTokens_erase _ _ (by rw [c1, c2])
+
+
+/-- A comment the scanner reads as exactly one COMMENT token: `/* body */` whose body contains
+no NUL and no earlier `*/`, or `-- body` + line feed whose body contains no line feed and no NUL
+(delivered form: a CR in the text is a line feed here). -/
+inductive IsComment : List Char → Prop
+  | block (body : List Char) (h : commentBodyOK false body = true) :
+      IsComment ('/' :: '*' :: (body ++ ['*', '/']))
+  | line (body : List Char) (h : ∀ c ∈ body, c ≠ '\n' ∧ c ≠ eofRune) :
+      IsComment ('-' :: '-' :: (body ++ ['\n']))
+
+theorem scan_comment (r : Cursor) (cm k : List Char) (hc : IsComment cm) (h : r.chars = cm ++ k) :
+    (scan r).1.tok = .COMMENT ∧ (scan r).2.chars = k := by
+  cases hc with
+  | block body hb => exact scan_blockComment r body k (by simpa using h) hb
+  | line body hb => exact scan_lineComment r body k (by simpa using h) hb
+
+theorem notWsHead_comment (cm k : List Char) (hc : IsComment cm) : NotWsHead (cm ++ k) := by
+  intro c x hx
+  cases hc with
+  | block body hb => simp at hx; rw [← hx.1]; decide
+  | line body hb => simp at hx; rw [← hx.1]; decide
+
+theorem dropEof_comment (cm k : List Char) (hc : IsComment cm) : dropEof (cm ++ k) = cm ++ k := by
+  cases hc with
+  | block body hb =>
+    have : ¬ ('/' : Char) = eofRune := by decide
+    simp [dropEof, this]
+  | line body hb =>
+    have : ¬ ('-' : Char) = eofRune := by decide
+    simp [dropEof, this]
+
+
+theorem chars_ofRunes (text : List Char) : (Cursor.ofRunes text).chars = foldCR text ++ [eofRune] := by
+  simp [Cursor.ofRunes, Cursor.chars, stampRunes_map_fst]
+
+theorem notWsHead_append_eof (post : List Char) (h : NotWsHead post) : NotWsHead (post ++ [eofRune]) := by
+  intro c x hx
+  cases post with
+  | nil => simp at hx; rw [← hx.1]; decide
+  | cons d post' => simp at hx; rw [← hx.1]; exact h d post' rfl
+
+
+/-- How raw whitespace is delivered: folding commutes with concatenation unless a CR LF pair is
+split, and a raw run of space, tab, LF, CR is delivered as a run of space, tab, LF. -/
+theorem foldCR_append (x y : List Char) (h : ¬ (x.getLast? = some '\r' ∧ y.head? = some '\n')) :
+    foldCR (x ++ y) = foldCR x ++ foldCR y := by
+  induction x using foldCR.induct with
+  | case1 => rfl
+  | case2 t ih =>
+    simp only [List.cons_append, foldCR, List.cons.injEq, true_and]
+    apply ih
+    intro hh; apply h
+    cases t <;> simp_all [List.getLast?_cons_cons]
+  | case3 t hne ih =>
+    cases t with
+    | nil =>
+      cases y with
+      | nil => rfl
+      | cons d y' =>
+        have hd : d ≠ '\n' := fun e => h ⟨rfl, by simp [e]⟩
+        simp [foldCR, hd]
+    | cons d t' =>
+      have hd : d ≠ '\n' := fun e => hne t' (by rw [e])
+      simp only [List.cons_append, foldCR_cr_of_ne d _ hd, List.cons.injEq, true_and]
+      rw [← List.cons_append]
+      apply ih
+      intro hh; apply h
+      simpa [List.getLast?_cons_cons] using hh
+  | case4 c t _ hc2 ih =>
+    have hc : c ≠ '\r' := fun e => hc2 e
+    rw [List.cons_append, foldCR_cons_of_ne c _ hc, foldCR_cons_of_ne c _ hc, List.cons_append]
+    congr 1
+    apply ih
+    intro hh; apply h
+    cases t <;> simp_all [List.getLast?_cons_cons]
+
+/-- Raw whitespace: space, tab, line feed, carriage return. -/
+def isRawWs (c : Char) : Bool := isWhitespace c || c == '\r'
+
+theorem foldCR_rawWs (w : List Char) (hne : w ≠ []) (h : ∀ c ∈ w, isRawWs c = true) : WsRun (foldCR w) := by
+  induction w using foldCR.induct with
+  | case1 => exact absurd rfl hne
+  | case2 t ih =>
+    refine ⟨by simp [foldCR], ?_⟩
+    intro c hc
+    simp only [foldCR, List.mem_cons] at hc
+    rcases hc with rfl | hc
+    · decide
+    · by_cases ht : t = []
+      · subst ht; simp [foldCR] at hc
+      · exact (ih ht (fun x hx => h x (by simp [hx]))).2 c hc
+  | case3 t hne' ih =>
+    have e : foldCR ('\r' :: t) = '\n' :: foldCR t := by
+      cases t with
+      | nil => rfl
+      | cons d t' =>
+        have hd : d ≠ '\n' := fun e => hne' t' (by rw [e])
+        exact foldCR_cr_of_ne d t' hd
+    rw [e]
+    refine ⟨by simp, ?_⟩
+    intro c hc
+    simp only [List.mem_cons] at hc
+    rcases hc with rfl | hc
+    · decide
+    · by_cases ht : t = []
+      · subst ht; simp [foldCR] at hc
+      · exact (ih ht (fun x hx => h x (by simp [hx]))).2 c hc
+  | case4 c t _ hc2 ih =>
+    have hc : c ≠ '\r' := fun e => hc2 e
+    rw [foldCR_cons_of_ne c _ hc]
+    refine ⟨by simp, ?_⟩
+    intro x hx
+    simp only [List.mem_cons] at hx
+    rcases hx with rfl | hx
+    · have := h x (by simp)
+      simpa [isRawWs, hc] using this
+    · by_cases ht : t = []
+      · subst ht; simp [foldCR] at hx
+      · exact (ih ht (fun y hy => h y (by simp [hy]))).2 x hx
+
+theorem notWsHead_foldCR (post : List Char) (h : ∀ c x, post = c :: x → isRawWs c = false) :
+    NotWsHead (foldCR post) := by
+  intro c x hx
+  cases post with
+  | nil => simp [foldCR] at hx
+  | cons d post' =>
+    have hd := h d post' rfl
+    simp only [isRawWs, Bool.or_eq_false_iff, beq_eq_false_iff_ne] at hd
+    rw [foldCR_cons_of_ne d _ hd.2] at hx
+    simp at hx
+    rw [← hx.1]; exact hd.1
+
+
 end InfluxQL
